@@ -74,9 +74,16 @@ CLAIMS = {
              "object's memo (or compensated at every call site / fresh receiver); Table.fingerprint resolves to a definition "
              "that neither reads nor writes a memo (columns are live views); the only computed store to _fp is the full "
              "recomputation under `_fp is None`; the fold is order-sensitive over all elements and reads nothing but the "
-             "elements (no id(), names, dtypes, time); fingerprint code writes cache fields only.",
-        note="Trusted: hash() of element values; collision-freedom is not decided (statement excludes hash-equal pairs).",
-        technique="CFG must-pass-through (store -> invalidation) + MRO resolution + dataflow slice of the fold + effect summaries",
+             "elements (no id(), names, dtypes, time); fingerprint code writes cache fields only. 'Notices every change', "
+             "structurally: every value _hash_element returns is a distinct sentinel or a chain of 64-bit BIJECTIONS (mask, "
+             "xor-shift, odd multiplication, xor constant - judged step by step on the return terms, helper mixers in line) "
+             "with a xor-shift and a multiplication over hash() / a child fingerprint / a nested fold, and nested folds start "
+             "from len() and a per-type tag: no collision FAMILY by construction (-5 ~ 2**61-6, [a,b] ~ [a+d,b-d*B], a 2x2 "
+             "table ~ its transpose, 5 ~ (5,) ~ [5] were all real on the pinned tree; fixed 17c195f).",
+        note="Trusted: hash() of element values; that a 61-bit fold has SOME collisions is unavoidable and not decided "
+             "(the statement excludes hash-equal pairs; C16.f excludes the constructible families).",
+        technique="CFG must-pass-through (store -> invalidation) + MRO resolution + dataflow slice of the fold + effect summaries + "
+                  "term-domain abstract interpretation of the element hash with a bijection calculus over 64-bit steps",
         design="2/C16"),
     "C04": dict(
         text="Decided completely up to the trusted base: the promotion automaton is EXTRACTED from the source by a finite "
